@@ -157,7 +157,10 @@ def split_trace(path, nshards, starts=("New", "Vec", "Frames", "PyEcho")):
 def validate_trace(path, tag, deviations=(), timeout=1500, heap="3g"):
     """returns dict(lines, accepted, first_rejected (1-based or None), status_differs, wall, detail)"""
     name = cfg("gen_%s_Trace.cfg" % tag, spec="TraceSpec", consts={"Deviations": "{%s}" % ", ".join(q(d) for d in deviations)}, invs=[], extra="CONSTRAINT Track\nPOSTCONDITION Report\n")
-    r = vlib.tlc("WireTrace", name, FAM, workers=1, timeout=timeout, heap=heap, env={"TRACE": path}, keep_out=True)
+    for attempt in range(5):      # a Java StackOverflowError in TLC's evaluator was seen once on a trace that validates in every other run (JIT-dependent frame sizes): run again
+        r = vlib.tlc("WireTrace", name, FAM, workers=1, timeout=timeout, heap=heap, env={"TRACE": path}, keep_out=True)
+        if "StackOverflowError" not in (r.error or "") and "StackOverflowError" not in r.out: break
+        vlib.log("note: TLC ended with a Java StackOverflowError on %s (attempt %d); running it again" % (path, attempt + 1))
     try: os.remove(os.path.join(SPECDIR, name))
     except OSError: pass
     m = re.search(r'<<\s*"maxline",\s*(\d+),\s*"of",\s*(\d+),\s*"statusdiffers",\s*(\d+),\s*"pyok",\s*(\d+),\s*"pynative",\s*(\d+),\s*"F38",\s*(\d+),\s*"F39",\s*(\d+),\s*"F45mini",\s*(\d+),\s*"F45micro",\s*(\d+)\s*>>', r.out)
